@@ -17,10 +17,22 @@ EXPLANATION = ("aifeyn_spec/aifeyn_rename/single_api_agrees/aifeyn_file_aligned 
                "parameters) and on every line of freshly generated libraries with 1 and 3 ranks")
 TRUSTED = ["hand model ESRVerif/Model/Aifeyn.lean of str.lstrip/isdigit/int, get_max_param, count_params, labels_to_shape and "
            "tree_to_aifeyn (tied by randomised correspondence)",
-           "harness/extractors/aifeyn.py: translation of aifeyn_complexity's body and of generate_equations' writer blocks",
+           "harness/extractors/aifeyn.py: translation of aifeyn_complexity's body and of generate_equations' writer blocks, and the "
+           "classification of the param_list expression at the two call sites in fit_single.py",
+           "harness/extractors/_norm_c08.py: semantics-preserving normalisations applied before translation -- N1 one level of "
+           "single-return helper inlining (atomic arguments), N2 loop+append -> comprehension with guard inversion, N3 De Morgan / double "
+           "negation / != vs not == in tests, N4 unrolling of loops over literal tables, N5 single-use temporary before a call statement, "
+           "N6 string templates (% / f-string / + / str() / join) over declared-type holes, N7 forward symbolic evaluation of straight-line "
+           "bindings, N8 index/enumerate loops as direct iteration; in aifeyn.py: SSA scalars, int(a != b) = (1 if a != b else 0) = "
+           "`if a != b: x += 1`, arr.sum() = np.sum(arr) on syntactic ndarrays only, canonical operand order of + * != on pure scalars "
+           "(side conditions in the two module docstrings)",
            "numpy float64 log/sum against Lean Float.log to 1e-9 relative; numpy int64 arithmetic taken as exact",
            "shell `cat` concatenates its arguments in order"]
 ASSUMPTIONS = ["labels are ASCII (Python's str.isdigit also accepts non-ASCII digits)",
+               "aifeyn_complexity receives a list of str and a list (its documented types): re-ordering pure scalar statements such as "
+               "`k = len(tree)` relative to the comprehensions is observable only in the text of the TypeError for other argument types",
+               "generate_equations receives dirname: str and compl: int (its documented types): under these the %s / %i / f-string / "
+               "str() / + spellings of the file names and cat commands render the same text",
                "integer labels lie strictly inside (-2^63, 2^63): numpy's fixed-width abs/array conversion beyond is not modelled "
                "(observed: '-9223372036854775808' gives nan, |c| >= 2^64 raises TypeError)",
                "the empty label list is excluded from the formula (k = 0, n = 0 gives 0*ln 0 = nan in code and model alike)",
@@ -636,35 +648,39 @@ class LineCov(object):
         return out
 
 
+CALL_SITE_RULES = {"single_function": "maxParamOfPrinted", "tree_to_aifeyn": "paramLikeLabels"}
+
+
 def single_function_call_site(ctx):
-    """Static tie of the statements that real_single4 emulates (single_function, steps (1) and (4)) and of the statements
-    of tree_to_aifeyn the model mirrors; `labels`, `max_param`, `param_list` must not be assigned anywhere else."""
-    tree = ast.parse(open(os.path.join(ctx.stage, "esr", "fitting", "fit_single.py")).read())
-    want = {
-        "single_function": ["s = generator.labels_to_shape(labels, basis_functions)",
-                            "success, _, tree = generator.check_tree(s)",
-                            "fstr = generator.node_to_string(0, tree, labels)",
-                            "max_param = simplifier.get_max_param([fstr], verbose=verbose)",
-                            "param_list = ['a%i' % j for j in range(max_param)]",
-                            "aifeyn = generator.aifeyn_complexity(labels, param_list)"],
-        "tree_to_aifeyn": ["s = generator.labels_to_shape(labels, basis_functions)",
-                           "success, _, tree = generator.check_tree(s)",
-                           "fstr = generator.node_to_string(0, tree, labels)",
-                           "param_list = [l for l in labels if l.startswith('a') and l[1:].isdigit()]",
-                           "aifeyn = generator.aifeyn_complexity(labels, param_list)"],
-    }
-    res = {}
-    for name, wl in want.items():
-        fn = extract.find_def(tree, name)
-        stmts = [ast.unparse(n) for n in ast.walk(fn) if isinstance(n, ast.Assign)]
-        missing = [w for w in wl if w not in stmts]
-        allowed = set(wl) | ({"max_param = simplifier.get_max_param([fstr], verbose=verbose)"} if name == "tree_to_aifeyn" else set())
-        reassigned = [x for x in stmts if re.match(r"^(labels|max_param|param_list|aifeyn)\b[^=]*=[^=]", x) and x not in allowed]
-        res[name] = dict(missing=missing, reassigned=reassigned)
-        if missing or reassigned:
-            ctx.disagree("corr:%s-call-site" % name, "statements %r missing, %r reassigned" % (missing, reassigned))
+    """Static tie of the two single-tree call sites of aifeyn_complexity in fit_single.py, on NORMALISED source
+    (harness/extractors/aifeyn.py `call_sites`: forward symbolic evaluation of the function body, so renamed locals,
+    hoisted or dropped temporaries, loop-vs-comprehension and string spelling do not matter):
+
+    * single_function must pass the unmodified `labels` and ['a%i'%j for j in range(get_max_param([node_to_string(0,
+      check_tree(labels_to_shape(labels, basis_functions))[2], labels)]))] -- exactly what real_single4 composes from the
+      real functions and what `singleFunctionAifeyn` models.  single_function itself is not run by this check, so an
+      unrecognised or different rule here is a broken obligation.
+    * tree_to_aifeyn must pass `labels` and [l for l in labels if l.startswith('a') and l[1:].isdigit()] (`treeToAifeyn`).
+      This function IS run (stream C: model correspondence + the property's oracle on every case), so a shape the
+      analysis cannot read is not a disagreement: the dynamic tie decides (returned as 'dynamic-only'); a shape it
+      reads as a DIFFERENT rule is one.
+    Returns (number of broken static obligations, set of functions left to the dynamic tie)."""
+    from extractors import aifeyn as ax
+    res = ax.call_sites(ctx.stage)
+    bad, dynamic = 0, set()
+    for name, want in CALL_SITE_RULES.items():
+        r = res.get(name, {})
+        r["expected"] = want
+        if r.get("rule") == want:
+            continue
+        if name == "tree_to_aifeyn" and "error" in r:
+            r["tie"] = "dynamic-only (corr:tree_to_aifeyn and the oracle of stream C)"
+            dynamic.add(name)
+            continue
+        bad += 1
+        ctx.disagree("corr:%s-call-site" % name, "parameter rule %s expected, found %s" % (want, r.get("rule") or r.get("error")))
     ctx.extra["call_sites"] = res
-    return sum(1 for v in res.values() if v["missing"] or v["reassigned"])
+    return bad, dynamic
 
 
 def run(ctx):
@@ -676,7 +692,10 @@ def run(ctx):
     scale = 10 if deep else 1
     b = [0, 0, 0, 0, 0]
     have_model = bool(ctx.proof.get("model_ok"))
-    b[4] = single_function_call_site(ctx)
+    b[4], dynamic_sites = single_function_call_site(ctx)
+    if dynamic_sites:
+        deep = True                      # the static reading is replaced by the dynamic tie at escalated depth
+        scale = 10
     cov = LineCov()
     cov.start()
     if have_model:
@@ -696,6 +715,10 @@ def run(ctx):
         b[3] = stream_libraries(ctx, plan)
     else:
         _libraries_oracle_only(ctx, plan)
+    if dynamic_sites and (not have_model or b[2]):
+        b[4] += 1
+        ctx.disagree("corr:tree_to_aifeyn-call-site", "call site not readable (%s) and the dynamic tie of tree_to_aifeyn is not clean"
+                     % ctx.extra["call_sites"]["tree_to_aifeyn"].get("error"))
     ctx.extra["corr_obligations"] = 5
     ctx.extra["corr_discharged"] = sum(1 for x in b if x == 0) if have_model else int(b[4] == 0)
     ctx.extra["bounds"] = dict(label_list_length="1..12 (direct), <=9 nodes (single-tree API)", integers="|c| < 2^63",
